@@ -74,6 +74,69 @@ def display_context():
     return _DC
 
 
+# A second ledger in which the most common and the maximum number of fractional digits of a currency differ
+# (USD: 2 digits five times, 4 digits once; HOOL 3 / 5; EUR 0 / 1), for formatters built with Precision.MAXIMUM.
+LEDGER_MIXED = """
+2020-01-01 open Assets:A
+2020-01-01 open Income:X
+2020-01-02 * "usd"
+  Assets:A   1.00 USD
+  Income:X  -1.00 USD
+2020-01-03 * "usd"
+  Assets:A   2.50 USD
+  Income:X  -2.50 USD
+2020-01-04 * "usd, once with four digits"
+  Assets:A   0.1234 USD
+  Income:X  -0.12 USD
+  Income:X  -0.0034 USD
+2020-01-05 * "hool"
+  Assets:A   1.123 HOOL {2.50 USD}
+  Assets:A   2.000 HOOL {2.50 USD}
+  Assets:A   0.00005 HOOL {2.50 USD}
+  Income:X
+2020-01-06 * "eur"
+  Assets:A   7 EUR
+  Assets:A   3 EUR
+  Assets:A   0.5 EUR
+  Income:X
+"""
+PRECISION_MIXED_COMMON = {'USD': 2, 'HOOL': 3, 'EUR': 0}
+PRECISION_MIXED_MAXIMUM = {'USD': 4, 'HOOL': 5, 'EUR': 1}
+
+_FORMATTERS = {}
+
+
+def formatter(kind):
+    """-> (DisplayFormatter or None, {currency: fractional digits it must quantise to}).
+    kinds: 'none', 'default' (LEDGER, dcontext.build() as run_query does), 'mixed-common' (LEDGER_MIXED, build()),
+    'mixed-maximum' (LEDGER_MIXED, build(precision=Precision.MAXIMUM))."""
+    if kind == 'none':
+        return None, None
+    if kind not in _FORMATTERS:
+        from beancount.core.display_context import Precision
+        if kind == 'default':
+            fmt, prec = display_context().build(), PRECISION
+        else:
+            entries, errors, options = loader.load_string(LEDGER_MIXED)
+            if errors:
+                raise RuntimeError(f'harness ledger does not load: {errors!r}')
+            if kind == 'mixed-common':
+                fmt, prec = options['dcontext'].build(), PRECISION_MIXED_COMMON
+            elif kind == 'mixed-maximum':
+                fmt, prec = options['dcontext'].build(precision=Precision.MAXIMUM), PRECISION_MIXED_MAXIMUM
+            else:
+                raise ValueError(kind)
+        for cur in ('USD', 'HOOL', 'EUR'):
+            got = fmt.quantize(D('1.23456789'), cur).as_tuple().exponent
+            if got != -prec[cur]:
+                raise RuntimeError(f'harness: formatter {kind} quantises {cur} to {-got} digits, the table says {prec[cur]}')
+        _FORMATTERS[kind] = (fmt, prec)
+    return _FORMATTERS[kind]
+
+
+FORMATTER_KINDS = ('none', 'default', 'mixed-common', 'mixed-maximum')
+
+
 # -- value constructors and JSON coding --------------------------------------------------------------
 
 def A(num, cur):
